@@ -149,6 +149,21 @@ PROPS = {
                                      'allocation failure inside the library is not injected'],
         floor={'quick': 5000, 'thorough': 20000},
     ),
+    'C15': dict(
+        runs=[dict(src='c15_io_faults.c', ldflags='-Wl,--wrap=read,--wrap=write')],
+        level='fault_enumeration',
+        exhaustive=True,
+        rule=('case = (format, workload in {write-close, open-read-seek-close, rdwr}, caller sample type, fault kind in {0 bytes, half the bytes, seek fails, '
+              'length+1000, length/2, tell+7}, single-shot | persistent); inside a case the fault-free run counts its K virtual-I/O callbacks and the workload is '
+              're-run with the fault at EVERY callback 1..K (complete enumeration of fault points for that workload). Quick: one representative per '
+              'container and per codec family; thorough: every format. Plus the descriptor route: /dev/full, descriptor closed behind the library, EINTR/EIO '
+              'injected in read()/write(). distinct = hash(format, workload, type, fault point, kind, persistence); evidence counts the fault points that actually fired'),
+        assumptions=COMMON_ASSUME + ['faults stay inside the SF_VIRTUAL_IO contract (results in [0, asked]; seek returns -1; length/tell answers are wrong but non-negative)',
+                                     '"bytes accepted before the failure stay uncorrupted" is not separately asserted on the virtual-I/O route (the harness owns the store and accepted nothing after a persistent fault); it is observed on the descriptor route only through the OS',
+                                     'termination = virtual-I/O callback budget (logical clock) plus a wall watchdog that must fire twice'],
+        floor={'quick': 1000, 'thorough': 5000},
+        timeout={'quick': 3000, 'thorough': 20000},
+    ),
 }
 
 NOT_APPLICABLE = {}
